@@ -225,7 +225,7 @@ def strategy(tier):
 
 def units(tier, seed):
     n = 16 if tier == 'quick' else 32
-    per = 25 if tier == 'quick' else 1200
+    per = 25 if tier == 'quick' else 350
     return [{'kind': 'random', 'n': per, 'seed': core.shard_seed(seed, ID, i)} for i in range(n)]
 
 
